@@ -162,10 +162,13 @@ void check_line(Ctx &c, const std::string &line, int writer_tid) {
     if (line.empty() || line.back() != '\n') sim::violation("c14:newline", "line does not end in a newline: \"%.80s\"", line.c_str());
     if (line.find('\n') != line.size() - 1) sim::violation("c14:newline", "line contains an embedded newline (torn or merged lines)");
     if (memchr(line.data(), 0, line.size())) sim::violation("c14:nul", "line contains a NUL byte");
-    size_t sep = line.find("] - M");
-    if (sep != std::string::npos) sep += 1;
-    if (sep == std::string::npos) {
-        if (line.find("] - S") != std::string::npos)
+    // which logger's workload made the line: the letter that opens the message, i.e. the byte behind the FIRST "] - " (no level, timestamp,
+    // thread id or subject name used here contains that text; the random message bodies may, so later occurrences mean nothing)
+    size_t sep = line.find("] - ");
+    char who = sep != std::string::npos && sep + 4 < line.size() ? line[sep + 4] : 0;
+    if (who == 'M') sep += 1;
+    else {
+        if (who == 'S')
             sim::violation("c14:wrong-sink", "a line logged through the second logger reached the first logger's sink: \"%.100s\"", line.c_str());
         // a line of the library's own (different subject); not produced by the workload
         sim::probe("foreign_line");
@@ -306,10 +309,11 @@ void side_cb(const char *data, size_t n, void *ud) {
     if (line.empty() || line.back() != '\n') sim::violation("c14:torn", "second logger: a write that is not one whole line reached its stream: \"%.80s\"", line.c_str());
     if (line.find('\n') != line.size() - 1) sim::violation("c14:newline", "second logger: line contains an embedded newline (torn or merged lines)");
     if (memchr(line.data(), 0, line.size())) sim::violation("c14:nul", "second logger: line contains a NUL byte");
-    if (line.find("] - M") != std::string::npos)
+    size_t sep = line.find("] - "); // the first one ends the prefix; message bodies are random text and may contain the same bytes again
+    char who = sep != std::string::npos && sep + 4 < line.size() ? line[sep + 4] : 0;
+    if (who == 'M')
         sim::violation("c14:wrong-sink", "a line logged through the first logger reached the second logger's sink: \"%.100s\"", line.c_str());
-    size_t sep = line.find("] - S");
-    if (sep == std::string::npos) sim::violation("c14:phantom", "second logger: unexpected line \"%.100s\"", line.c_str());
+    if (who != 'S') sim::violation("c14:phantom", "second logger: unexpected line \"%.100s\"", line.c_str());
     sep += 1;
     int thr = 0, k = 0;
     if (sscanf(line.c_str() + sep + 4, "%d.%d|", &thr, &k) != 2) sim::violation("c14:format", "second logger: cannot parse message id in \"%.120s\"", line.c_str());
